@@ -8,8 +8,11 @@ pub mod c05;
 pub mod c06;
 pub mod c07;
 pub mod c09;
+pub mod c11;
 pub mod c13;
 pub mod c14;
+pub mod c15;
+pub mod c16;
 pub mod c19;
 
 use serde_json::Value;
@@ -25,8 +28,11 @@ pub fn run(id: &str, tier: &str) -> i32 {
         "C05" => c05::run(tier),
         "C06" => c06::run(tier),
         "C09" => c09::run(tier),
+        "C11" => c11::run(tier),
         "C13" => c13::run(tier),
         "C14" => c14::run(tier),
+        "C15" => c15::run(tier),
+        "C16" => c16::run(tier),
         "C19" => c19::run(tier),
         "C07" => c07::run(tier, "C07"),
         "C08" => c07::run(tier, "C08"),
@@ -76,8 +82,11 @@ fn replay_one(id: &str, v: &Value) -> Option<String> {
         "C06" => c06::replay(v),
         "C07" | "C08" => c07::replay(v, id),
         "C09" => c09::replay(v),
+        "C11" => c11::replay(v),
         "C13" => c13::replay(v),
         "C14" => c14::replay(v),
+        "C15" => c15::replay(v),
+        "C16" => c16::replay(v),
         "C19" => c19::replay(v),
         _ => Some(format!("no replay driver for {}", id)),
     }
